@@ -55,7 +55,7 @@ fn step_hook() {
             let used = base.saturating_sub(addr);
             // (shuttle continuations run on heap-allocated stacks: addresses unrelated to the
             // probe's base are ignored)
-            if used < (8 << 20) {
+            if used < (2 << 20) {
                 STACK_MAX.with(|m| {
                     if used > m.get() {
                         m.set(used)
